@@ -55,4 +55,13 @@ for _pid, _o in SERVER_ORACLES.items():
 
 # the data-race half of C19 (and the goroutine halves of C12/C17) cannot be exhibited by a Gallina model:
 # the same lockstep scenarios are run under the Go race detector as supporting validation
-PROPS["C19"]["race"] = {"suites": ["server"], "n_quick": 60, "n_thorough": 1500}
+PROPS["C19"]["race"] = {"suites": ["server", "client"], "n_quick": 60, "n_thorough": 1500}
+
+# free-running rounds (harness/cmd/h2v/freerun.go): the real client against the real server, many callers at once,
+# hooks off; what each property watches in them
+PROPS["C19"]["freerun"] = {"rounds_quick": 60, "rounds_thorough": 1500, "race": True, "watch": ["races"],
+                           "meaning": "a report from the Go race detector"}
+PROPS["C17"]["freerun"] = {"rounds_quick": 400, "rounds_thorough": 20000, "race": False, "watch": ["srvhang"],
+                           "meaning": "ServeConn still running 20 s after both ends of the transport were closed"}
+PROPS["C01"]["freerun"] = {"rounds_quick": 400, "rounds_thorough": 20000, "race": False, "watch": ["mismatch"],
+                           "meaning": "a 200 response whose body is not the echo of the request that caller sent"}
